@@ -38,6 +38,11 @@ type ReadOp struct {
 	ToEOF bool
 	// NoByteSrc: the operation cannot see whether the source is an io.ByteReader.
 	NoByteSrc bool
+	// PooledRequests: the sizes of the operation's Read requests depend on process state (compressed-mode
+	// UnPack copies the frame into a pooled bytes.Buffer whose spare capacity decides how much it asks
+	// for once the frame is longer than 512 bytes). The results do not, but "the i-th Read returns
+	// fewer bytes" is then not a reproducible environment; such inputs get cut-position environments.
+	PooledRequests bool
 	// Class is the entry point named in failure classes when several operations differ only in a
 	// size parameter (default: Name).
 	Class string
@@ -109,7 +114,7 @@ type pktVal struct {
 }
 
 func unpackOp(name string, threshold int, reuse bool, inputs []Input) *ReadOp {
-	return &ReadOp{Name: name, Inputs: inputs, Run: func(r io.Reader) (any, int64, error) {
+	return &ReadOp{Name: name, Inputs: inputs, PooledRequests: threshold >= 0, Run: func(r io.Reader) (any, int64, error) {
 		var p pk.Packet
 		if reuse {
 			p.Data = bytes.Repeat([]byte{0xAA}, 1024)[:0]
